@@ -115,6 +115,7 @@ class Memory:
         m = Memory.__new__(Memory)
         m.vm = s.vm
         m.id = next(_mem_ids)
+        s.id = next(_mem_ids)       # both sides now share every Alloc: both must copy on write
         m.pages = dict(s.pages)
         m.wlog = list(s.wlog) if s.wlog is not None else None
         return m
@@ -363,13 +364,15 @@ class SolverCtx:
     whichever state asks"""
 
     def __init__(s, timeout_ms=60000):
-        s.sol = z3.Solver()
+        s.sol = z3.SolverFor('QF_BV')
         s.sol.set('timeout', timeout_ms)
         s.stack = []
         s.queries = 0
         s.time = 0.0
         s.sat = 0
         s.unsat = 0
+        import os
+        s.slow = float(os.environ['SEIR_SLOW']) if os.environ.get('SEIR_SLOW') else None
 
     def sync(s, pc):
         st = s.stack
@@ -402,10 +405,69 @@ class SolverCtx:
             s.unsat += 1
         s.sol.pop()
         s.queries += 1
-        s.time += time.time() - t0
+        dt = time.time() - t0
+        s.time += dt
+        if s.slow is not None and dt > s.slow:
+            print("SLOW QUERY %.2fs %s pc=%d: %s" % (dt, r, len(pc), ' && '.join(str(e)[:300].replace('\n', ' ') for e in extra)))
         if r == z3.unknown:
             raise Inconclusive("solver returned unknown (%s)" % s.sol.reason_unknown())
         return r == z3.sat, model
+
+
+    def oneshot(s, pc, *extra, timeout_ms=300000):
+        """a fresh, non-incremental solve of pc && extra (used for the final proof obligations:
+        preprocessing makes unsat proofs much cheaper than on the incremental solver)"""
+        t0 = time.time()
+        sol = z3.Then('simplify', 'propagate-values', 'solve-eqs', 'simplify', 'bit-blast', 'sat').solver()
+        sol.set('timeout', timeout_ms)
+        sol.add(*pc)
+        for e in extra:
+            sol.add(e)
+        r = sol.check()
+        s.queries += 1
+        dt = time.time() - t0
+        s.time += dt
+        if s.slow is not None and dt > s.slow:
+            print("SLOW ONESHOT %.2fs %s pc=%d" % (dt, r, len(pc)))
+        if r == z3.unknown:
+            raise Inconclusive("solver returned unknown (%s)" % sol.reason_unknown())
+        if r == z3.sat:
+            s.sat += 1
+            return True, sol.model()
+        s.unsat += 1
+        return False, None
+
+    def enumerate(s, pc, term, limit):
+        """all values of term under pc (None if more than limit); one solver frame for the whole loop"""
+        s.sync(pc)
+        t0 = time.time()
+        sol = s.sol
+        sol.push()
+        a = z3.BitVec('enum!%d' % s.queries, term.size())
+        sol.add(a == term)
+        vals = []
+        try:
+            while True:
+                r = sol.check()
+                s.queries += 1
+                if r == z3.unknown:
+                    raise Inconclusive("solver returned unknown (%s)" % sol.reason_unknown())
+                if r == z3.unsat:
+                    s.unsat += 1
+                    break
+                s.sat += 1
+                v = sol.model().eval(a, model_completion=True).as_long()
+                vals.append(v)
+                if len(vals) > limit:
+                    return None
+                sol.add(a != v)
+        finally:
+            sol.pop()
+            dt = time.time() - t0
+            s.time += dt
+            if s.slow is not None and dt > s.slow:
+                print("SLOW ENUM %.2fs %d values pc=%d: %s" % (dt, len(vals), len(pc), str(term)[:200].replace('\n', ' ')))
+        return vals
 
 
 class VM:
@@ -597,17 +659,9 @@ class VM:
         c = st.cand.get(tid)
         if c is not None:
             return c
-        vals = []
-        extra = []
-        while True:
-            ok, model = s.solver.check(st.pc, *extra)
-            if not ok:
-                break
-            v = model.eval(term, model_completion=True).as_long()
-            vals.append(v)
-            if len(vals) > limit:
-                raise Inconclusive("more than %d feasible values for %s" % (limit, str(term)[:200]))
-            extra.append(term != v)
+        vals = s.solver.enumerate(st.pc, term, limit)
+        if vals is None:
+            raise Inconclusive("more than %d feasible values for %s" % (limit, str(term)[:200]))
         vals.sort()
         st.cand[tid] = vals
         return vals
@@ -851,6 +905,10 @@ class VM:
             s.stats['steps'] += st.steps
             if t.kind == 'infeasible':
                 return None
+            if s.opts.get('debug') and t.kind == 'memerr':
+                print("MEMERR", t.detail)
+                for f in st.frames:
+                    print("   in", f.fn.name[:100], f.cur, f.ip, f.blk[f.ip].line.strip()[:140])
             del st.frames[depth:]
             return Outcome(t.kind, None, t.detail, st)
 
@@ -1359,10 +1417,14 @@ def merge_cells(g, a, b, st=None):
             j += 1
         run_a = a[i:j]; run_b = b[i:j]
         if any(c is None for c in run_a) or any(c is None for c in run_b):
-            # uninitialised on one side: keep byte granularity, undef bytes become fresh variables
+            # uninitialised on one side only: the byte becomes an arbitrary *initialised* byte there
+            # (a merged image cannot carry per-case initialisation; stated in DESIGN)
             for ca, cb in zip(run_a, run_b):
-                ta = cell_term(ca) if ca is not None else cells_to_val([None], st)
-                tb = cell_term(cb) if cb is not None else cells_to_val([None], st)
+                if ca is None and cb is None:
+                    out.append(None)
+                    continue
+                ta = cell_term(ca) if ca is not None else z3.BitVec('pad!%d' % next(_undef_ctr), 8)
+                tb = cell_term(cb) if cb is not None else z3.BitVec('pad!%d' % next(_undef_ctr), 8)
                 out.append((z3.simplify(z3.If(g, ta, tb)), 0))
         else:
             va = cells_to_val(run_a); vb = cells_to_val(run_b)
